@@ -1,6 +1,6 @@
-(* C07, the whole single-key reader (NewDecryptingReader + Reads) and the
-   keyset-level reader on ARBITRARY input: header and associated data included.
-   Constructor faults.  Laws of the primitives are explicit hypotheses. *)
+(* C07, the whole single-key reader (NewDecryptingReader + Reads): constructors
+   case by case, constructor and whole-history I/O faults, the honest stream.
+   Laws of the primitives are explicit hypotheses. *)
 From Coq Require Import List NArith Bool Arith Lia.
 From Tink Require Import Bytes Stream StreamProofs StreamIO StreamIOProofs.
 Import ListNotations.
@@ -235,7 +235,8 @@ Section NoDecrypt.
 End NoDecrypt.
 
 (* ------------------------------------------------------------------ *)
-(* (a) KEY-LEVEL MANIPULATION: header, associated data, segments        *)
+(* the ciphertext as written; the salt field (the manipulation theorems  *)
+(* are in StreamKeyReduction.v)                                          *)
 (* ------------------------------------------------------------------ *)
 Section KeyManipulation.
   Variable hkdf : hash -> bytes -> bytes -> bytes -> nat -> bytes.
@@ -263,26 +264,6 @@ Section KeyManipulation.
   Definition key_ciphertext : bytes :=
     header k salt prefix ++ encode_stream (SENC k sk) (k_nonce_size k) prefix seg off p.
 
-  (* LAW 1, authenticity of the segment AEAD under the session key: a segment
-     decrypts under (sk, N) only if it is the segment encryption, under the same
-     (sk, N), of a plaintext segment of this stream at the position N encodes *)
-  Definition seg_auth_law : Prop :=
-    forall N c s, SDEC k sk N c = Some s ->
-      exists i, i < length ss /\
-                N = nonce_of (k_nonce_size k) prefix (N.of_nat i) (i + 1 =? length ss) /\
-                s = nth i ss [] /\ c = SENC k sk N s.
-
-  (* LAW 2, for the (salt', aad') the reader ends up with: under a session key
-     that differs from sk nothing was ever encrypted, so nothing decrypts *)
-  Definition other_key_law (salt' aad' : bytes) : Prop :=
-    derive hkdf k salt' aad' <> sk -> forall N c, SDEC k (derive hkdf k salt' aad') N c = None.
-
-  (* LAW 3, HKDF does not collide on the two inputs at hand: another salt or
-     other associated data (the HKDF info) give another output *)
-  Definition hkdf_no_collision (salt' aad' : bytes) : Prop :=
-    salt' <> salt \/ aad' <> aad ->
-    hkdf (k_hash k) (k_main k) salt' aad' (k_dlen k) <> hkdf (k_hash k) (k_main k) salt aad (k_dlen k).
-
   (* the salt field of whatever bytes the reader is given *)
   Definition salt_field (c' : bytes) : bytes := firstn (k_dk k) (skipn 1 c').
 
@@ -292,101 +273,7 @@ Section KeyManipulation.
   Lemma header_len : length (header k salt prefix) = hdr_len k.
   Proof. unfold header, hdr_len. rewrite !app_length, Hsalt, Hpre. reflexivity. Qed.
 
-  Lemma nonce_prefix_inj nsz (p1 p2 : bytes) c1 l1 c2 l2 :
-    length p1 = length p2 -> nonce_of nsz p1 c1 l1 = nonce_of nsz p2 c2 l2 -> p1 = p2.
-  Proof. unfold nonce_of. intros Hl H. apply (app_inv_length _ _ _ _ Hl) in H. tauto. Qed.
 
-  Theorem key_manipulation_detected :
-    seg_auth_law ->
-    forall (c' : bytes) (F : option nat) (aad' : bytes) (sizes : list nat),
-      other_key_law (salt_field c') aad' -> hkdf_no_collision (salt_field c') aad' ->
-      let '(outb, f) := KREAD k aad' (mkSrc c' F) sizes in
-      f <> Panicked /\ (exists tl, p = outb ++ tl) /\
-      (f = AtEof -> aad' = aad /\ c' = key_ciphertext /\ outb = p) /\
-      (Forall (fun n => 0 < n) sizes -> length ss + length p < length sizes -> f <> Pending).
-  Proof.
-    intros Hauth c' F aad' sizes Hother Hnc.
-    destruct kv_facts as (Hseg & Htag).
-    assert (Htriv : forall fin0, fin0 = Failed \/ (fin0 = Pending /\ sizes = []) ->
-              fin0 <> Panicked /\ (exists tl, p = [] ++ tl) /\
-              (fin0 = AtEof -> aad' = aad /\ c' = key_ciphertext /\ [] = p) /\
-              (Forall (fun n => 0 < n) sizes -> length ss + length p < length sizes -> fin0 <> Pending)).
-    { intros fin0 [->|(-> & ->)]; repeat split; try discriminate; try (exists p; reflexivity).
-      intros _ H. cbn in H. lia. }
-    unfold key_read.
-    destruct (new_dec_reader hkdf src read_full k aad' (mkSrc c' F)) as (o, s3) eqn:End.
-    destruct o as [[[[k1 k2] pre'] st]|]; [|apply Htriv; left; reflexivity].
-    pose proof (new_dec_reader_some hkdf _ _ _ _ _ _ _ _ End) as (Hlim & Hfb).
-    rewrite (new_dec_reader_ok hkdf k aad' _ Hlim Hfb) in End. cbn zeta in End. cbn [srem] in End, Hfb.
-    fold (salt_field c') in End.
-    remember (salt_field c') as salt' eqn:Hsdef.
-    remember (firstn nonce_prefix_size (skipn (1 + k_dk k) c')) as pre eqn:Hpdef.
-    remember (src_adv (mkSrc c' F) (hdr_len k)) as s3' eqn:Hs3def.
-    inversion End as [[E1 E2 E3 E4 E5]]. clear End. subst k1 k2 pre' st s3.
-    rewrite <- surjective_pairing.
-    pose proof (limit_le_len (mkSrc c' F)) as Hll. cbn [srem] in Hll.
-    assert (Hsl : length salt' = k_dk k).
-    { rewrite Hsdef. unfold salt_field. rewrite firstn_length, skipn_length. unfold hdr_len, nonce_prefix_size in Hlim. lia. }
-    assert (Hpl : length pre = nonce_prefix_size).
-    { rewrite Hpdef. rewrite firstn_length, skipn_length. unfold hdr_len in Hlim. lia. }
-    assert (Hc' : c' = header k salt' pre ++ srem s3').
-    { rewrite Hs3def, Hsdef, Hpdef. unfold header, src_adv, salt_field. cbn [srem]. fold (hdr_byte k).
-      rewrite <- Hfb, <- !app_assoc. unfold hdr_len. apply split3. }
-    assert (Hnr : new_reader (k_rparams k pre) s3' = Some (mkR [] 0 [] 0%N false s3')).
-    { unfold new_reader, k_rparams. cbn [r_nonce_size r_prefix]. rewrite nonce_room by lia. reflexivity. }
-    assert (Hoff : r_off (k_rparams k pre) <= r_ctseg (k_rparams k pre) + 1)
-      by (unfold k_rparams; cbn [r_off r_ctseg]; lia).
-    (* a reader under whose nonces nothing decrypts *)
-    assert (Hdead : (forall cnt last c,
-                       SDEC k (derive hkdf k salt' aad') (nonce_of (k_nonce_size k) pre cnt last) c = None) ->
-              let '(outb, f) := drive (SDEC k (derive hkdf k salt' aad')) read_full (k_rparams k pre) sizes
-                                      (mkR [] 0 [] 0%N false s3') [] in
-              f <> Panicked /\ (exists tl, p = outb ++ tl) /\
-              (f = AtEof -> aad' = aad /\ c' = key_ciphertext /\ outb = p) /\
-              (Forall (fun n => 0 < n) sizes -> length ss + length p < length sizes -> f <> Pending)).
-    { intros Hnone.
-      rewrite (nothing_decrypts_prefix _ (k_rparams k pre) Hoff Hnone s3' sizes _ Hnr).
-      apply Htriv. destruct sizes; [right; split; reflexivity|left; reflexivity]. }
-    destruct (bytes_eq_dec salt' salt) as [Es|Es];
-      [destruct (bytes_eq_dec aad' aad) as [Ea|Ea]|].
-    - (* same salt, same associated data: the session key of the writer *)
-      rewrite Es, Ea in *.
-      destruct (bytes_eq_dec pre prefix) as [Ep|Ep].
-      + (* same nonce prefix: the segment-level theorem applies to what follows the header *)
-        rewrite Ep in *.
-        assert (Hct : r_ctseg (k_rparams k prefix) = seg + k_tag k) by (unfold k_rparams; cbn [r_ctseg]; lia).
-        assert (Hpos : 0 < seg - r_off (k_rparams k prefix)) by (unfold k_rparams; cbn [r_off]; lia).
-        assert (Hnr' : new_reader (k_rparams k prefix) (mkSrc (srem s3') (sfailr s3')) = Some (mkR [] 0 [] 0%N false s3')).
-        { rewrite <- Hnr. destruct s3'; reflexivity. }
-        pose proof (manipulation_detected (SENC k sk) (SDEC k sk) (k_rparams k prefix) seg (k_tag k)
-                      Hct Hpos p Hb Hauth (srem s3') (sfailr s3') sizes _ Hnr') as HM.
-        destruct (drive (SDEC k sk) read_full (k_rparams k prefix) sizes _ []) as (outb, f).
-        destruct HM as (M1 & M2 & M3 & M4). repeat split; auto.
-        * rewrite Hc'. unfold key_ciphertext. f_equal. apply M3; assumption.
-        * apply M3; assumption.
-      + (* another nonce prefix: no nonce of this reader was ever used *)
-        apply Hdead. intros cnt last c.
-        destruct (SDEC k sk (nonce_of (k_nonce_size k) pre cnt last) c) as [s|] eqn:Ed; [|reflexivity].
-        exfalso. destruct (Hauth _ _ _ Ed) as (i & _ & Hn & _).
-        apply nonce_prefix_inj in Hn; [contradiction|]. rewrite Hpl, Hpre. reflexivity.
-    - (* other associated data *)
-      apply Hdead. intros cnt last c. apply Hother.
-      intros Heq. apply derive_eq_hkdf in Heq. revert Heq. apply Hnc. right. exact Ea.
-    - (* another salt *)
-      apply Hdead. intros cnt last c. apply Hother.
-      intros Heq. apply derive_eq_hkdf in Heq. revert Heq. apply Hnc. left. exact Es.
-  Qed.
-
-  (* the same with the laws stated once and for all *)
-  Corollary key_manipulation_detected_global :
-    seg_auth_law ->
-    (forall salt' aad', other_key_law salt' aad') -> (forall salt' aad', hkdf_no_collision salt' aad') ->
-    forall (c' : bytes) (F : option nat) (aad' : bytes) (sizes : list nat),
-      let '(outb, f) := KREAD k aad' (mkSrc c' F) sizes in
-      f <> Panicked /\ (exists tl, p = outb ++ tl) /\
-      (f = AtEof -> aad' = aad /\ c' = key_ciphertext /\ outb = p) /\
-      (Forall (fun n => 0 < n) sizes -> length ss + length p < length sizes -> f <> Pending).
-  Proof. intros H1 H2 H3 c' F aad' sizes. apply key_manipulation_detected; auto. Qed.
 End KeyManipulation.
 
 (* ------------------------------------------------------------------ *)
@@ -469,123 +356,6 @@ Proof.
   destruct r; try reflexivity. apply IH.
 Qed.
 
-(* LAW 4: nothing of the stream at hand was produced under the other keys of the
-   keyset: under the session key such a key ki derives from the salt field of c'
-   and the reader's associated data, and under the two nonces its reader forms
-   for segment 0 (nonce-prefix field of c'), no prefix of what follows ki's
-   header in c' decrypts *)
-Definition other_keys_law hkdf gcm_open aes_ctr hmac (k : skey) (keys : list skey) (c' aad' : bytes) : Prop :=
-  forall ki, In ki keys ->
-    ki = k \/
-    forall last c, (exists b, skipn (hdr_len ki) c' = c ++ b) ->
-      seg_dec gcm_open aes_ctr hmac ki (derive hkdf ki (firstn (k_dk ki) (skipn 1 c')) aad')
-              (nonce_of (k_nonce_size ki) (firstn nonce_prefix_size (skipn (1 + k_dk ki) c')) 0%N last) c = None.
-
-Section KeysetManipulation.
-  Variable hkdf : hash -> bytes -> bytes -> bytes -> nat -> bytes.
-  Variable gcm_seal : bytes -> bytes -> bytes -> bytes.
-  Variable gcm_open : bytes -> bytes -> bytes -> option bytes.
-  Variable aes_ctr : bytes -> bytes -> bytes -> bytes.
-  Variable hmac : hash -> bytes -> bytes -> bytes.
-  Local Notation SENC := (seg_enc gcm_seal aes_ctr hmac).
-  Local Notation SDEC := (seg_dec gcm_open aes_ctr hmac).
-  Local Notation KREAD := (key_read hkdf gcm_open aes_ctr hmac src read_full).
-
-  (* what a caller of the keyset-level reader sees *)
-  Definition keyset_read (keys : list skey) (aad : bytes) (c0 : src) (sizes : list nat) : bytes * fin :=
-    outcome [] (dr_reads hkdf gcm_open aes_ctr hmac keys aad (dr_new c0) sizes).
-
-  Variable k : skey.                         (* the key that encrypted *)
-  Variables salt prefix aad p : bytes.
-  Variable keys : list skey.                 (* the enabled keys of the decrypting keyset, in order *)
-  Hypothesis Hv : key_valid k = true.
-  Hypothesis Hvs : forall ki, In ki keys -> key_valid ki = true.
-  Hypothesis Hsalt : length salt = k_dk k.
-  Hypothesis Hpre : length prefix = nonce_prefix_size.
-  Local Notation seg := (k_cseg k - k_tag k).
-  Local Notation off := (k_foff k + hdr_len k).
-  Local Notation ss := (segments seg off p).
-  Hypothesis Hb : (N.of_nat (length ss) <= max_segments)%N.
-
-  Local Notation other_keys_law := (other_keys_law hkdf gcm_open aes_ctr hmac k keys).
-
-  Definition good (c' : bytes) (aad' : bytes) (sizes : list nat) (r : bytes * fin) : Prop :=
-    let '(outb, f) := r in
-    f <> Panicked /\ (exists tl, p = outb ++ tl) /\
-    (f = AtEof -> aad' = aad /\ c' = key_ciphertext hkdf gcm_seal aes_ctr hmac k salt prefix aad p /\ outb = p) /\
-    (Forall (fun n => 0 < n) sizes -> length ss + length p < length sizes -> f <> Pending).
-
-  Lemma good_failed c' aad' n ns : good c' aad' (n :: ns) ([], Failed).
-  Proof. repeat split; try discriminate. exists p; reflexivity. Qed.
-
-  (* the candidate loop: either no key accepts, or the first one that does is k *)
-  Lemma dr_spec_char c' F aad' n :
-    (forall sizes, good c' aad' sizes (KREAD k aad' (mkSrc c' F) sizes)) ->
-    other_keys_law c' aad' ->
-    forall ks, (forall ki, In ki ks -> In ki keys) ->
-      dr_spec hkdf gcm_open aes_ctr hmac ks aad' (mkSrc c' F) n = (None, RErr) \/
-      exists k1 k2 pre st0 s3 st' b,
-        new_dec_reader hkdf src read_full k aad' (mkSrc c' F) = (Some (k1, k2, pre, st0), s3) /\
-        read (SDEC k (k1, k2)) read_full (k_rparams k pre) st0 n = (st', RData b) /\
-        dr_spec hkdf gcm_open aes_ctr hmac ks aad' (mkSrc c' F) n = (Some (k, (k1, k2), pre, st'), RData b).
-  Proof.
-    intros Hgood Hlaw. induction ks as [|ki ks IH]; intros Hin; [left; reflexivity|].
-    cbn [dr_spec].
-    assert (IH' := IH (fun x Hx => Hin x (or_intror Hx))). clear IH.
-    destruct (new_dec_reader hkdf src read_full ki aad' (mkSrc c' F)) as (o, s3) eqn:End.
-    destruct o as [[[[k1 k2] pre] st0]|]; [|exact IH'].
-    pose proof (new_dec_reader_some hkdf _ _ _ _ _ _ _ _ End) as (Hlim & Hfb).
-    pose proof End as End'.
-    rewrite (new_dec_reader_ok hkdf ki aad' _ Hlim Hfb) in End'. cbn zeta in End'. cbn [srem] in End'.
-    destruct (Hlaw ki (Hin ki (or_introl eq_refl))) as [->|Hdead].
-    - (* the key itself *)
-      destruct (read (SDEC k (k1, k2)) read_full (k_rparams k pre) st0 n) as (st', r) eqn:Er.
-      destruct r as [b| | |]; try exact IH'.
-      + right. exists k1, k2, pre, st0, s3, st', b. auto.
-      + exfalso. specialize (Hgood [n]). unfold key_read in Hgood. rewrite End in Hgood.
-        cbn [drive] in Hgood. rewrite Er in Hgood. destruct Hgood as (Hp & _). congruence.
-    - (* another key of the keyset: its first Read fails *)
-      remember (firstn nonce_prefix_size (skipn (1 + k_dk ki) c')) as pre0 eqn:Hp0 in *.
-      remember (src_adv (mkSrc c' F) (hdr_len ki)) as s30 eqn:Hs30 in *.
-      remember (firstn (k_dk ki) (skipn 1 c')) as salt0 eqn:Hs0 in *.
-      inversion End' as [[E1 E2 E3 E4 E5]]. subst k1 k2 pre st0 s3.
-      rewrite <- surjective_pairing.
-      destruct (key_valid_facts ki (Hvs ki (Hin ki (or_introl eq_refl)))) as (Hseg & _ & _).
-      assert (Hoff : r_off (k_rparams ki pre0) <= r_ctseg (k_rparams ki pre0) + 1)
-        by (unfold k_rparams; cbn [r_off r_ctseg]; lia).
-      assert (Hsr : srem s30 = skipn (hdr_len ki) c') by (rewrite Hs30; reflexivity).
-      destruct (first_read_fails_at (SDEC ki (derive hkdf ki salt0 aad')) (k_rparams ki pre0) Hoff s30 n) as (st' & ->).
-      { intros last c Hpfx. rewrite Hsr in Hpfx. exact (Hdead last c Hpfx). }
-      exact IH'.
-  Qed.
-
-  (* For ANY bytes, associated data, source fault and Read sizes given to the
-     keyset-level reader *)
-  Theorem keyset_manipulation_detected :
-    seg_auth_law hkdf gcm_seal gcm_open aes_ctr hmac k salt prefix aad p ->
-    forall (c' : bytes) (F : option nat) (aad' : bytes) (sizes : list nat),
-      other_key_law hkdf gcm_open aes_ctr hmac k salt aad (salt_field k c') aad' ->
-      hkdf_no_collision hkdf k salt aad (salt_field k c') aad' ->
-      other_keys_law c' aad' ->
-      good c' aad' sizes (keyset_read keys aad' (mkSrc c' F) sizes).
-  Proof.
-    intros Hauth c' F aad' sizes Ho Hnc Hlaw.
-    assert (Hgood : forall sz, good c' aad' sz (KREAD k aad' (mkSrc c' F) sz)).
-    { intros sz. unfold good.
-      exact (key_manipulation_detected hkdf gcm_seal gcm_open aes_ctr hmac k salt prefix aad p
-               Hv Hsalt Hpre Hb Hauth c' F aad' sz Ho Hnc). }
-    unfold keyset_read. rewrite keyset_reader_spec.
-    destruct sizes as [|n ns].
-    - cbn. repeat split; try discriminate; [exists p; reflexivity|]. intros _ H. cbn in H. lia.
-    - cbn [spec_reads].
-      destruct (dr_spec_char c' F aad' n Hgood Hlaw keys (fun x H => H)) as [->|H].
-      + cbn [outcome]. apply good_failed.
-      + destruct H as (k1 & k2 & pre & st0 & s3 & st' & b & End & Er & ->).
-        cbn [outcome]. rewrite <- drive_outcome.
-        specialize (Hgood (n :: ns)). unfold key_read in Hgood. rewrite End in Hgood.
-        cbn [drive] in Hgood. rewrite Er in Hgood. exact Hgood.
-  Qed.
-End KeysetManipulation.
 
 (* ------------------------------------------------------------------ *)
 (* the honest stream through the keyset-level reader: any keyset that   *)
@@ -673,63 +443,4 @@ Section KeysetHonest.
              sizes p _ Hb Hnr).
   Qed.
 
-  Variable keys : list skey.
-  Hypothesis Hvs : forall ki, In ki keys -> key_valid ki = true.
-  Hypothesis Hin : In k keys.
-  (* LAW 4 at the honest stream: the other keys of the keyset reject its beginning *)
-  Hypothesis Hlaw : other_keys_law hkdf gcm_open aes_ctr hmac k keys C aad.
-
-  Lemma dr_spec_finds n k1 k2 pre st0 s3 st' b :
-    new_dec_reader hkdf src read_full k aad (mkSrc C None) = (Some (k1, k2, pre, st0), s3) ->
-    read (SDEC k (k1, k2)) read_full (k_rparams k pre) st0 n = (st', RData b) ->
-    forall ks, (forall ki, In ki ks -> In ki keys) -> In k ks ->
-      dr_spec hkdf gcm_open aes_ctr hmac ks aad (mkSrc C None) n = (Some (k, (k1, k2), pre, st'), RData b).
-  Proof.
-    intros End Er. induction ks as [|ki ks IH]; intros Hsub Hk; [destruct Hk|].
-    assert (Hhead : ki = k -> dr_spec hkdf gcm_open aes_ctr hmac (ki :: ks) aad (mkSrc C None) n =
-                              (Some (k, (k1, k2), pre, st'), RData b)).
-    { intros ->. cbn [dr_spec]. rewrite End, Er. reflexivity. }
-    destruct (Hlaw ki (Hsub ki (or_introl eq_refl))) as [E|Hdead]; [exact (Hhead E)|].
-    destruct Hk as [E|Hk]; [exact (Hhead E)|].
-    specialize (IH (fun x Hx => Hsub x (or_intror Hx)) Hk).
-    cbn [dr_spec].
-    destruct (new_dec_reader hkdf src read_full ki aad (mkSrc C None)) as (o, s3') eqn:End'.
-    destruct o as [[[[k1' k2'] pre'] st0']|]; [|exact IH].
-    pose proof (new_dec_reader_some hkdf _ _ _ _ _ _ _ _ End') as (Hlim & Hfb).
-    rewrite (new_dec_reader_ok hkdf ki aad _ Hlim Hfb) in End'. cbn zeta in End'. cbn [srem] in End'.
-    remember (firstn nonce_prefix_size (skipn (1 + k_dk ki) C)) as pre0 eqn:Hp0 in *.
-    remember (src_adv (mkSrc C None) (hdr_len ki)) as s30 eqn:Hs30 in *.
-    remember (firstn (k_dk ki) (skipn 1 C)) as salt0 eqn:Hs0 in *.
-    inversion End' as [[E1 E2 E3 E4 E5]]. subst k1' k2' pre' st0' s3'.
-    rewrite <- surjective_pairing.
-    destruct (key_valid_facts ki (Hvs ki (Hsub ki (or_introl eq_refl)))) as (Hseg & _ & _).
-    assert (Hoff : r_off (k_rparams ki pre0) <= r_ctseg (k_rparams ki pre0) + 1)
-      by (unfold k_rparams; cbn [r_off r_ctseg]; lia).
-    assert (Hsr : srem s30 = skipn (hdr_len ki) C) by (rewrite Hs30; reflexivity).
-    destruct (first_read_fails_at (SDEC ki (derive hkdf ki salt0 aad)) (k_rparams ki pre0) Hoff s30 n) as (st'' & ->).
-    { intros last c Hpfx. rewrite Hsr in Hpfx. exact (Hdead last c Hpfx). }
-    exact IH.
-  Qed.
-
-  (* wherever the key sits in the keyset, the keyset-level reader behaves on the
-     honest stream exactly as the single-key reader of that key: the bytes the
-     decoys consumed are replayed *)
-  Theorem keyset_read_honest : forall sizes,
-    keyset_read hkdf gcm_open aes_ctr hmac keys aad (mkSrc C None) sizes = KREAD k aad (mkSrc C None) sizes.
-  Proof.
-    intros sizes. unfold keyset_read. rewrite keyset_reader_spec.
-    destruct sizes as [|n ns].
-    - unfold key_read. rewrite honest_constructor. reflexivity.
-    - pose proof (key_read_honest [n]) as H1. unfold key_read in *. rewrite honest_constructor in *.
-      cbn [drive] in *. cbn [spec_reads].
-      destruct (read (SDEC k (fst sk, snd sk)) read_full (k_rparams k prefix)
-                     (mkR [] 0 [] 0%N false (mkSrc ENC None)) n) as (st', r) eqn:Er.
-      destruct r as [b| | |].
-      + rewrite (dr_spec_finds n _ _ _ _ _ st' b honest_constructor Er keys (fun x H => H) Hin).
-        cbn [outcome]. rewrite <- drive_outcome. reflexivity.
-      + (* REof at the very first Read is impossible *)
-        apply read_eof_last in Er. discriminate.
-      + destruct H1 as ([H|H] & _); discriminate.
-      + destruct H1 as ([H|H] & _); discriminate.
-  Qed.
 End KeysetHonest.
